@@ -95,7 +95,15 @@ RULE = (
     "every object hands out (red, green, blue, rgb, timestamps) is asked and copied, attacked with five in-place writes "
     "(asked again at once where something was written), and finally all of them are asked again and compared with the "
     "copies (a write through one array must not show in another array or object). The calibration / pixel-size block copies every value at the "
-    "moment it is asked. Non-trivial: >=2 steps with a query after the first step."
+    "moment it is asked. BUFFER MODEL of clause 3 (c19_alias.py, ops c19.alias / c19.aliasSpec; both tiers): on fixed kymographs "
+    "(3x2 and 2x1 pixels x lines; thorough: 4x3 too) every history of length <= 3 that ends with a request and every history of "
+    "length 4 that ends with a request and contains a write attempt (thorough: every history of length 4 ending with a request) "
+    "over {get_image red, timestamps, get_image rgb of every object; element write through every array handed out so far; copy, "
+    "crop to rows 1.., bin 2 rows, flip of every object}; random: 400/8000 histories of 3-12 steps on random kymographs (2-6 "
+    "pixels, 1-4 lines, photon streams starting 0-2 samples early) with all colours, writes at random elements, random crops "
+    "and bin factors, calibrate_to_kbp, flips of processed kymographs, derivations of derived objects; the writes are really "
+    "attempted on the real ndarrays, never-written twins answer each step alone. Non-trivial: >=2 steps with a query after "
+    "the first step (buffer stream: a write attempt and a later request)."
 )
 TRUSTED = [
     "the model answers with provenance terms (which [start, stop) window a value was computed from, through which closures); "
@@ -130,8 +138,10 @@ ASSUMPTIONS = [
     "wave, exceeds the frames of the image and indexing raises - outside this property)",
     "flip is applied to unprocessed kymographs with >=2 pixels only (a flipped view calls the view's factory functions "
     "directly; one-pixel kymographs fall back on a pixel time that needs two rows)",
-    "NumPy buffer identity is not modelled: aliasing is checked by in-place write attempts only (confocal images/timestamps, "
-    "as the property states); channel .data arrays are writable by design and not attacked",
+    "NumPy buffer identity is modelled for kymograph images / timestamps under element writes through the handed-out array "
+    "objects (Verif.C19.Alias; source values read from a clean object); for scans, time slices and truncated objects aliasing is "
+    "checked by in-place write attempts only; routes to a buffer other than the handed-out array object (ndarray.base, "
+    "setflags(write=True)) are outside; channel .data arrays are writable by design and not attacked",
     "plotting and exporting (plot, plot_with_force, export_tiff, export_video) are not queries in the sense of the property "
     "text and are not part of the histories: a cached array that only a plot call modifies is outside this check",
     "scan start/stop/infowave of objects made by Scan.__getitem__ are treated as functions of the derivation path (they are set "
